@@ -21,9 +21,36 @@
    ambiguous = any answer that is not a definitive success or failure; look_ambiguous w = every scripted lookup answer is ambiguous.
 *)
 From Coq Require Import ZArith List Bool.
-From Verif Require Import Model Sem InvDb InvSwap InvMint InvMelt Corollaries Queries Footprint HRel Global GlobalQuote GlobalValue GlobalErr GlobalQuery GlobalMelt GlobalKeys Cuts CutOrder Conc Races GlobalBalance.
+From Verif Require Import Model Sem InvDb InvSwap InvMint InvMelt Corollaries Queries Footprint HRel Global GlobalQuote GlobalValue GlobalErr GlobalQuery GlobalMelt GlobalKeys Cuts CutOrder Conc Races GlobalBalance GlobalLedger Reconf GlobalPoll Trace Admin AdminProofs.
 Import ListNotations.
 Open Scope Z_scope.
+
+Theorem C05_polls_only_adopt_definitive_answers : forall (cfg : config) (w : world) (o : op), Good w -> is_poll o -> poll_rel w (fst (step cfg no_fault w o)).
+Proof. exact @polls_only_adopt_definitive_answers. Qed.
+Print Assumptions C05_polls_only_adopt_definitive_answers.
+
+Theorem C05_pending_quote_waits_for_a_poll : forall (cfg : config) (w : world) (o : op) (id : Z) (q : lquote),
+       Good w ->
+       ~ is_poll o ->
+       find_lq id (d_lq (w_db w)) = Some q ->
+       lq_state q = 1 -> find_lq id (d_lq (w_db (fst (step cfg no_fault w o)))) = Some q.
+Proof. exact @pending_quote_waits_for_a_poll. Qed.
+Print Assumptions C05_pending_quote_waits_for_a_poll.
+
+Theorem C05_poll_outcomes : let cfg := {| c_max_mint := 0; c_max_melt := 0; c_max_balance := 0; c_mpp := false; c_feepct := 1 |} in
+       let w := reach cfg poll_prefix in
+       let st := fun v : world => map lq_state (d_lq (w_db v)) in
+       let pre := fun v : world => map lq_preimage (d_lq (w_db v)) in
+       st w = [1] /\
+       (let v := fst (run_history cfg w [EScriptLook 106 {| a_kind := 0; a_pre := 9 |}; OMeltState 105]) in
+        st v = [2] /\ pre v = [9] /\ d_pending (w_db v) = []) /\
+       (let v := fst (run_history cfg w [EScriptLook 106 {| a_kind := 1; a_pre := 0 |}; OCheck [103]]) in
+        st v = [0] /\ d_pending (w_db v) = [] /\ d_spent (w_db v) = []) /\
+       (let v :=
+          fst (run_history cfg w [EScriptLook 106 {| a_kind := 2; a_pre := 0 |}; OMeltState 105; OCheck [103]]) in
+        st v = [1] /\ length (d_pending (w_db v)) = 1%nat).
+Proof. exact @poll_outcomes. Qed.
+Print Assumptions C05_poll_outcomes.
 
 Theorem C05_ambiguous_backend_never_resolves : forall (cfg : config) (h : list op) (w : world),
        Good w -> look_ambiguous w -> Forall is_poll h -> w_db (fst (run_history cfg w h)) = w_db w.
